@@ -133,7 +133,7 @@ func loadProg(dir string, cs *ContractSet) (*Prog, error) {
 			continue
 		}
 		for _, f := range pk.GoFiles {
-			if filepath.Base(f) == "contracts_verif.go" && !seen[f] {
+			if isContractFile(f) && !seen[f] {
 				seen[f] = true
 				if os.Getenv("VERIF_PREFER_MIRROR") != "" {
 					// development: /verif/contracts wins when it has this file
@@ -237,6 +237,8 @@ type loopDesc struct {
 	blocks map[*ssa.BasicBlock]bool
 	wild   bool                // calls / stores through non-local pointers
 	arrs   bool                // stores into slice elements (backing arrays only)
+	calls  bool                // non-pure calls, defers, sends: anything may change
+	stTyps []types.Type        // types stored through non-local pointers
 	stored map[*ssa.Alloc]bool // non-escaping allocs stored to in the loop
 }
 
@@ -295,16 +297,19 @@ func (p *Prog) loopInfo(fn *ssa.Function) *loopInfo {
 						ld.arrs = true
 					} else {
 						ld.wild = true
+						ld.stTyps = append(ld.stTyps, x.Val.Type())
 					}
 				case *ssa.Call:
 					if !p.callIsPure(x.Common()) {
 						ld.wild = true
+						ld.calls = true
 						if os.Getenv("GOVC_DEBUG") != "" {
 							fmt.Fprintf(os.Stderr, "loop in %s wild because of call %s\n", fn.Name(), p.calleeName(x.Common()))
 						}
 					}
 				case *ssa.Defer, *ssa.Go, *ssa.MapUpdate, *ssa.Send, *ssa.Select:
 					ld.wild = true
+					ld.calls = true
 				case *ssa.UnOp:
 					// receive
 				}
@@ -453,7 +458,11 @@ func (p *Prog) callIsPure(c *ssa.CallCommon) bool {
 		}
 		return true
 	}
-	if con, ok := p.CS.ByName[n]; ok && (con.Pure || (con.HasMod && len(con.Modifies) == 0)) {
+	if con, ok := p.CS.ByName[n]; ok && !con.sweepOnly() && (con.Pure || (con.HasMod && len(con.Modifies) == 0)) {
+		return true
+	}
+	if con, ok := p.CS.ByName[n]; ok && con.Inline && con.Extern && !strings.Contains(n, ".Put") {
+		// inlined leaf helpers of the standard library (encoding/binary): no side effects of their own
 		return true
 	}
 	return p.CS.isPure(n)
@@ -466,4 +475,33 @@ func isSliceOfScalars(t types.Type) bool {
 	}
 	_, ok = scalarWidth(sl.Elem())
 	return ok
+}
+
+func isContractFile(path string) bool {
+	b := filepath.Base(path)
+	return strings.HasPrefix(b, "contracts") && strings.HasSuffix(b, "_verif.go")
+}
+
+// typeHolds: can a value of type t contain (directly, in a field or element) a
+// value of type want? Go is type safe: a store of a T changes only memory of type T.
+func typeHolds(t, want types.Type, depth int) bool {
+	if depth > 6 {
+		return true
+	}
+	if types.Identical(t, want) || types.Identical(under(t), under(want)) {
+		return true
+	}
+	switch x := under(t).(type) {
+	case *types.Struct:
+		for i := 0; i < x.NumFields(); i++ {
+			if typeHolds(x.Field(i).Type(), want, depth+1) {
+				return true
+			}
+		}
+	case *types.Array:
+		return typeHolds(x.Elem(), want, depth+1)
+	case *types.Interface:
+		return types.IsInterface(want)
+	}
+	return false
 }
